@@ -21,6 +21,7 @@
   `schema_roundtrip` (= `C16_partial`) is the property on the complement of both regions.
 -/
 import AriadneModel.Proofs.SchemaRoundtrip
+import AriadneModel.Proofs.SchemaPrune
 
 set_option linter.unusedSimpArgs false
 set_option linter.unusedVariables false
@@ -89,8 +90,6 @@ theorem envGood (tm : Name) (h : trigShadow tm = false) : EnvGood (ρ₂ tm) tm 
   nonNull := by rw [ρ₂_of_sensitive h (by decide)]; decide
   cast := by rw [ρ₂_of_sensitive h (by decide)]; decide
   tlist := by rw [ρ₂_of_sensitive h (by decide)]; decide
-  ifaceT := by rw [ρ₂_of_sensitive h (by decide)]; decide
-  objT := by rw [ρ₂_of_sensitive h (by decide)]; decide
   undefined := by rw [ρ₂_of_sensitive h (by decide)]; decide
   directive := by rw [ρ₂_of_sensitive h (by decide)]; decide
   schema := by rw [ρ₂_of_sensitive h (by decide)]; decide
@@ -186,6 +185,33 @@ theorem schema_roundtrip (S : SchemaIR) (tm sv : Name) (hwf : wf S = true)
     (h1 : trigOneOf S = false) (h2 : trigShadow tm = false) : Roundtrip S tm sv := by
   unfold Roundtrip
   rw [eval_gen S tm sv hwf h2, eraseOneOf_of_not S h1]
+
+/-- The same for the module as `ast_to_str` WRITES it — unused imports removed (`written`, the
+    model of the autoflake pass; the harness compares it with the import lists of the real file):
+    the evaluator consults only names the body mentions, and those stay imported. -/
+theorem schema_roundtrip_written (S : SchemaIR) (tm sv : Name) (hwf : wf S = true)
+    (h1 : trigOneOf S = false) (h2 : trigShadow tm = false) :
+    evalSchemaModule (written (gen S tm sv)) sv = .ok S := by
+  have h := SchemaPrune.eval_written (gen S tm sv) genBindings bindImports_gen
+  have e : (gen S tm sv).svName = sv := rfl
+  rw [e] at h
+  rw [h]
+  exact schema_roundtrip S tm sv hwf h1 h2
+
+/-- every name the written module imports is mentioned (or re-bound) by its two statements -/
+theorem written_imports_only_needed (m : PyModuleIR) :
+    ∀ i ∈ (written m).imports, i.names ≠ [] ∧ ∀ n ∈ i.names, keepName m n = true := by
+  intro i hi
+  have hi' : i ∈ pruneWith (keepName m) m.imports := hi
+  unfold pruneWith at hi'
+  rw [List.mem_filter] at hi'
+  obtain ⟨hmem, hne⟩ := hi'
+  rw [List.mem_map] at hmem
+  obtain ⟨j, _, hj⟩ := hmem
+  subst hj
+  refine ⟨by simpa using hne, ?_⟩
+  intro n hn
+  exact (List.mem_filter.mp hn).2
 
 /-- The property at full strength (all well-formed schemas × all variable names). -/
 def C16_full : Prop := ∀ (S : SchemaIR) (tm sv : Name), wf S = true → Roundtrip S tm sv
